@@ -11,6 +11,7 @@ import QV.Proofs.A2A6
 import QV.Proofs.A2A7
 import QV.Proofs.A2A8
 import QV.Proofs.A2X3
+import QV.Proofs.A2X4
 import QV.Model.Front
 /-!
 # C01 – Boolean expressions mean what the Python source means
@@ -1190,5 +1191,87 @@ example :
      Sem.semW σ (sumP (.name "a") [.name "b", .name "c"]) = some (pySum 2 [3, 2, 1])) ∧
     pySum 2 [3, 2, 1] = .int 2 2 := by
   refine ⟨rfl, rfl, by decide, by decide⟩
+
+open QV.A2A in
+/-- **C01_builtins_minmax_partial** – `max` / `min` (`__call_minmax`).  What the rewriter returns: for two explicit
+arguments `a0 if (a0 > a1) else a1` (the test is the one-element conjunction python builds); for `k ≥ 2` explicit
+arguments the chain `minmaxChain` over the visited arguments; for a single tuple-typed argument `t` / a matrix row `L[c]`
+the chain over the unrolled elements `t[0] … ` / `L[c][0] …` (`C01_unroll_partial`); the chain over `x0 … xn` is
+`x0 if (x0 > x1 and … and x0 > xn) else (chain over x1 … xn)` (`minmaxE`; `min`: `<=`).  And its meaning: over any
+expressions whose values are `Qint[w]` numbers `v0 … vn` the `>` chain evaluates to `pyMax [v0, …, vn]` and the `<=` chain
+to `pyMin [v0, …, vn]` (python's `max` / `min`: the fold of the binary maximum / minimum) - for every `n`, every width and
+all values, ties included (with `a0 = a1` the strict `a0 > a1` fails and the rest of the chain is taken, which then
+holds the maximum). -/
+theorem C01_builtins_minmax_partial (st : RSt) :
+    (∀ a b a' b', visitE st a = .ok a' → visitE st b = .ok b' →
+      visitE st (.call "max" [a, b]) = .ok (.ite (.boolop true [.cmp "Gt" a' b']) a' b') ∧
+      visitE st (.call "min" [a, b]) = .ok (.ite (.boolop true [.cmp "LtE" a' b']) a' b')) ∧
+    (∀ args x y zs, visitEs st args = .ok (x :: y :: zs) →
+      visitE st (.call "max" args) = minmaxChain "Gt" (x :: y :: zs) ∧
+      visitE st (.call "min" args) = minmaxChain "LtE" (x :: y :: zs)) ∧
+    (∀ t es, isDunder t = false → lookup st.types t = some (.ann (.sub (.name "Tuple") (.tuple es))) →
+      visitE st (.call "max" [.name t]) = minmaxChain "Gt" (elems1 t es.length) ∧
+      visitE st (.call "min" [.name t]) = minmaxChain "LtE" (elems1 t es.length)) ∧
+    (∀ L T n m c, c < n → lookup st.types L = some (.ann (matrixTy T n m)) →
+      visitE st (.call "max" [.sub (.name L) (.const (.int c))]) = minmaxChain "Gt" (elems2 L c m) ∧
+      visitE st (.call "min" [.sub (.name L) (.const (.int c))]) = minmaxChain "LtE" (elems2 L c m)) ∧
+    (∀ op x xs, minmaxChain op (x :: xs) = .ok (minmaxE op x xs) ∧
+      toP (minmaxE op x xs) = minmaxP op (toP x) (toPs xs)) ∧
+    (∀ (σ : Sem.SEnv) (w : Nat) (e : PExp) (es : List PExp) (v : Nat) (vs : List Nat),
+      List.Forall₂ (fun e v => Sem.semW σ e = some (.int w v)) (e :: es) (v :: vs) →
+      Sem.semW σ (minmaxP "Gt" e es) = some (.int w (pyMax (v :: vs))) ∧
+      Sem.semW σ (minmaxP "LtE" e es) = some (.int w (pyMin (v :: vs)))) := by
+  refine ⟨?_, ?_, ?_, ?_, fun op x xs => ⟨minmaxChain_cons op x xs, toP_minmaxE op x xs⟩,
+    fun σ w e es v vs h => ⟨maxP_value σ w e es v vs h, minP_value σ w e es v vs h⟩⟩
+  · intro a b a' b' ha hb
+    have hv := visitEs_two st a b a' b' ha hb
+    rw [visitE_callk st "max" _ _ hv, visitE_callk st "min" _ _ hv, visitCall_maxk, visitCall_mink,
+      minmaxChain_cons, minmaxChain_cons]
+    exact ⟨rfl, rfl⟩
+  · intro args x y zs hv
+    rw [visitE_callk st "max" _ _ hv, visitE_callk st "min" _ _ hv, visitCall_maxk, visitCall_mink]
+    exact ⟨rfl, rfl⟩
+  · intro t es hd ht
+    have hun := unrollArg_name st t es ht true
+    have hv := visitE_user_name st t hd
+    rw [visitE_call1 st "max" _ _ hv, visitE_call1 st "min" _ _ hv, visitCall_max1 st _ _ hun,
+      visitCall_min1 st _ _ hun]
+    exact ⟨rfl, rfl⟩
+  · intro L T n m c hc hL
+    have hrow := unrollArg_matrix_row st L T n m c hc hL true
+    have hv := visitE_const_sub st L (.int c)
+    rw [visitE_call1 st "max" _ _ hv, visitE_call1 st "min" _ _ hv, visitCall_max1 st _ _ hrow,
+      visitCall_min1 st _ _ hrow]
+    exact ⟨rfl, rfl⟩
+
+open QV.A2A in
+/-- `max(a, b, 3)` / `min(a, b, 3)` on `Qint[2]` variables: the if-chains the rewriter returns, and their values with
+`a = 1`, `b = 3` - a tie between `b` and the constant: `b > 3` fails, the last element is taken, the maximum is 3 -/
+example :
+    let st : RSt := initSt [("a", .sub (.name "Qint") (.const (.int 2))), ("b", .sub (.name "Qint") (.const (.int 2)))]
+    let σ : Sem.SEnv := fun s => if s = "a" then some (.int 2 1) else if s = "b" then some (.int 2 3) else none
+    visitE st (.call "max" [.name "a", .name "b", .const (.int 3)])
+      = .ok (.ite (.boolop true [.cmp "Gt" (.name "a") (.name "b"), .cmp "Gt" (.name "a") (.const (.int 3))]) (.name "a")
+          (.ite (.boolop true [.cmp "Gt" (.name "b") (.const (.int 3))]) (.name "b") (.const (.int 3)))) ∧
+    Sem.semW σ (minmaxP "Gt" (.name "a") [.name "b", .cint 3]) = some (.int 2 (pyMax [1, 3, 3])) ∧
+    Sem.semW σ (minmaxP "LtE" (.name "a") [.name "b", .cint 3]) = some (.int 2 (pyMin [1, 3, 3])) ∧
+    pyMax [1, 3, 3] = 3 ∧ pyMin [1, 3, 3] = 1 ∧ pyMax [2, 2] = 2 := by
+  refine ⟨rfl, by decide, by decide, rfl, rfl, rfl⟩
+
+open QV.A2A in
+/-- **C01_builtins_ordchr_partial** – `ord(a)` / `chr(a)`: the rewriter returns the visited argument itself (a `Qchar`
+*is* its code point: 8 bits, the same bits whether read as a character or as a number), so whatever value the argument
+has under `Sem.semW`, the call has that value - the identity on the code point. -/
+theorem C01_builtins_ordchr_partial (st : RSt) (a a' : SExp) (ha : visitE st a = .ok a') :
+    visitE st (.call "ord" [a]) = .ok a' ∧ visitE st (.call "chr" [a]) = .ok a' ∧
+    ∀ E, (visitE st (.call "ord" [a]) = .ok E ∨ visitE st (.call "chr" [a]) = .ok E) →
+      ∀ σ, Sem.semW σ (toP E) = Sem.semW σ (toP a') := by
+  have h1 : visitE st (.call "ord" [a]) = .ok a' := by rw [visitE_call1 st "ord" _ _ ha, visitCall_ord]
+  have h2 : visitE st (.call "chr" [a]) = .ok a' := by rw [visitE_call1 st "chr" _ _ ha, visitCall_chr]
+  refine ⟨h1, h2, ?_⟩
+  intro E hE σ
+  rcases hE with hE | hE
+  · rw [h1] at hE; cases hE; rfl
+  · rw [h2] at hE; cases hE; rfl
 
 end QV.C01
